@@ -176,6 +176,10 @@ theorem removeOne_rmInv (body : Wl R → M R Unit) (s0 : State R) (node : String
     (hwls : ∀ w (ms : MS R), (ms.st.wls.map (·.id)).Nodup → w ∈ ms.st.wls → wp (body w) (ReleaseWls w ms) flt ms)
     (ms : MS R) (h : RmInv s0 ms) : wp (removeOne body node wid) (fun _ ms' => RmInv s0 ms') flt ms := by
   unfold removeOne
+  rw [wp_bind, wp_renew]
+  simp only [wpK_ok]
+  have h : RmInv s0 (renewMS flt ms) := ⟨by simpa using h.1, fun x => by simpa using h.2 x⟩
+  generalize renewMS flt ms = ms at h ⊢
   rw [wp_bind, wp_attempt]
   -- Inv part and record part of the locked body, together
   have hI := pres_withWorkloadLocked node wid body (fun w flt ms h hw _ => hinv w flt ms h hw) flt ms h.1
@@ -246,6 +250,10 @@ theorem removeLike_rmInv (body : Wl R → M R Unit) (failMsg : Bool) (firstNode 
       wp (removeOnNode body failMsg g.1 g.2) (fun _ ms' => RmInv s0 ms') flt ms1 := by
     intro g ms1 h1
     unfold removeOnNode
+    rw [wp_bind, wp_renew]
+    simp only [wpK_ok]
+    have h1 : RmInv s0 (renewMS flt ms1) := ⟨by simpa using h1.1, fun x => by simpa using h1.2 x⟩
+    generalize renewMS flt ms1 = ms1 at h1 ⊢
     rw [wp_bind, wp_attempt, wp_readStep]
     split
     · simp only [attK_fail, wpK_ok, Bool.false_eq_true, if_false]
